@@ -247,13 +247,14 @@ def xy_rate(idx, cut=None, late=False):
     return r
 
 
-def xy_trace(X, Y, transformer, t_end, window, upto, rate=None):
+def xy_trace(X, Y, transformer, t_end, window, upto, rate=None, start=None):
     """Trace of (date, obs bytes, reward, holdings, nlv) up to the step landing on `upto`."""
     import pandas as pd
     from tradingenv.env import TradingEnvXY
     reset_clock()
+    kw = {} if start is None else {"start": start}
     env = TradingEnvXY(X.copy(), Y.copy(), transformer=transformer, transformer_end=t_end, window=window, spread=0.002,
-                       rate=None if rate is None else rate.copy())
+                       rate=None if rate is None else rate.copy(), **kw)
     out = []
     o = env.reset()
     rbook = lambda: hx(env.exchange[env._broker_fees.interest_rate].mid_price)
@@ -275,7 +276,9 @@ def xy_cases(tier):
         for window in ((1, 2) if tier == "quick" else (1, 2, 3)):
             for te in ((5,) if tier == "quick" else (4, 6)):
                 for cut in range(te, 12, 2 if tier == "quick" else 1):     # incl. the cut AT the fit date
-                    for gappy in (False, True, "eod"):
+                    # "start": the backtest starts AT the fit date ("fit until D, trade from D"), so the traded sample holds a
+                    # single row up to the fit date - whatever is fitted must still use data up to D only
+                    for gappy in (False, True, "eod", "start"):
                         out.append((transformer, window, te, cut, gappy))
     return out
 
@@ -330,8 +333,9 @@ def _xy_work(chunk):
     tier = chunk[0][-1]
     for (transformer, window, te, cut, gappy, _tier) in chunk:
         X, Y, idx = xy_tables(gappy)
+        st = idx[te] if gappy == "start" else None
         try:
-            base = xy_trace(X, Y, transformer, idx[te], window, idx[cut])
+            base = xy_trace(X, Y, transformer, idx[te], window, idx[cut], start=st)
         except Exception as ex:
             out["violations"].append(({"part": "xy", "transformer": transformer, "window": window, "te": te, "cut": cut, "pattern": None, "gappy": gappy},
                                       "unperturbed tabular run raised %r" % (ex,), ("xy-base", transformer)))
@@ -340,8 +344,8 @@ def _xy_work(chunk):
         if window == 1:
           for late in (False, True):
             try:
-                rb = xy_trace(X, Y, transformer, idx[te], window, idx[cut], xy_rate(idx, None, late))
-                rp = xy_trace(X, Y, transformer, idx[te], window, idx[cut], xy_rate(idx, cut, late))
+                rb = xy_trace(X, Y, transformer, idx[te], window, idx[cut], xy_rate(idx, None, late), start=st)
+                rp = xy_trace(X, Y, transformer, idx[te], window, idx[cut], xy_rate(idx, cut, late), start=st)
                 out["evaluations"] += 1
                 out["nontrivial"] += 1
                 if rb != rp:
@@ -354,11 +358,13 @@ def _xy_work(chunk):
                 out["violations"].append(({"part": "xy", "transformer": transformer, "window": window, "te": te, "cut": cut, "pattern": "rate",
                                            "gappy": gappy, "tier": tier}, "tabular run with a rate series raised %r" % (ex,), ("xy-rate-exc", transformer)))
         for pat in perturbations(tier, len(idx) - 1 - cut):
+            if gappy == "start" and pat == "truncate":
+                continue     # with the start at the fit date a truncated table can hold too few steps to build an environment at all
             X2, Y2 = apply_pattern(X, Y, idx, cut, pat)
             case = {"part": "xy", "transformer": transformer, "window": window, "te": te, "cut": cut, "gappy": gappy,
                     "pattern": pat if isinstance(pat, str) else [list(r) for r in pat], "tier": tier}
             try:
-                got = xy_trace(X2, Y2, transformer, idx[te], window, idx[cut])
+                got = xy_trace(X2, Y2, transformer, idx[te], window, idx[cut], start=st)
             except Exception as ex:
                 out["evaluations"] += 1
                 out["violations"].append((case, "rows after %s perturbed (%s): run raised %r" % (idx[cut].date(), pat, ex), ("xy-exc", transformer)))
@@ -435,17 +441,18 @@ def replay(case, **kw):
         return msgs
     memo_calendars()
     X, Y, idx = xy_tables(case.get("gappy", False))
-    base = xy_trace(X, Y, case["transformer"], idx[case["te"]], case["window"], idx[case["cut"]])
+    st = idx[case["te"]] if case.get("gappy") == "start" else None
+    base = xy_trace(X, Y, case["transformer"], idx[case["te"]], case["window"], idx[case["cut"]], start=st)
     if case["pattern"] is None:
         return []
     if case["pattern"] == "rate":
-        rb = xy_trace(X, Y, case["transformer"], idx[case["te"]], case["window"], idx[case["cut"]], xy_rate(idx, None, case.get("late", False)))
-        rp = xy_trace(X, Y, case["transformer"], idx[case["te"]], case["window"], idx[case["cut"]], xy_rate(idx, case["cut"], case.get("late", False)))
+        rb = xy_trace(X, Y, case["transformer"], idx[case["te"]], case["window"], idx[case["cut"]], xy_rate(idx, None, case.get("late", False)), start=st)
+        rp = xy_trace(X, Y, case["transformer"], idx[case["te"]], case["window"], idx[case["cut"]], xy_rate(idx, case["cut"], case.get("late", False)), start=st)
         return [] if rb == rp else ["outputs up to the cut differ after altering later interest-rate fixings"]
     pat = case["pattern"] if isinstance(case["pattern"], str) else tuple(tuple(r) for r in case["pattern"])
     X2, Y2 = apply_pattern(X, Y, idx, case["cut"], pat)
     try:
-        got = xy_trace(X2, Y2, case["transformer"], idx[case["te"]], case["window"], idx[case["cut"]])
+        got = xy_trace(X2, Y2, case["transformer"], idx[case["te"]], case["window"], idx[case["cut"]], start=st)
     except Exception as ex:
         return ["perturbed run raised %r" % (ex,)]
     return [] if got == base else ["outputs up to the cut differ after perturbing later rows"]
